@@ -72,6 +72,54 @@ func (a *c05) locOf(v ssa.Value) *c05Loc {
 				}
 			}
 			return true
+		case *ssa.Extract:
+			// one component of a helper's result tuple: the variable continues
+			// inside the helper (its return values); returning a value from
+			// outside the location is an assignment made at that return
+			call, ok := x.Tuple.(*ssa.Call)
+			if !ok {
+				return false
+			}
+			hs := a.calleesOf(call)
+			if len(hs) == 0 {
+				return false
+			}
+			l.web[v] = true
+			for _, h := range hs {
+				allInstrs(h, func(in ssa.Instruction) {
+					ret, ok := in.(*ssa.Return)
+					if !ok || x.Index >= len(ret.Results) || (len(in.Block().Preds) == 0 && in.Block().Index != 0) {
+						return
+					}
+					if !walk(ret.Results[x.Index], depth+1) {
+						l.callAssign[ret] = append(l.callAssign[ret], ret.Results[x.Index])
+					}
+				})
+			}
+			return true
+		case *ssa.Call:
+			// a single-result helper that is not itself a plain reading (some of its
+			// returns hand back a parameter / a zero value): same treatment
+			if x.Call.IsInvoke() || x.Call.Signature().Results().Len() != 1 || a.clockDerived(v) {
+				return false
+			}
+			hs := a.calleesOf(x)
+			if len(hs) == 0 {
+				return false
+			}
+			l.web[v] = true
+			for _, h := range hs {
+				allInstrs(h, func(in ssa.Instruction) {
+					ret, ok := in.(*ssa.Return)
+					if !ok || len(ret.Results) != 1 || (len(in.Block().Preds) == 0 && in.Block().Index != 0) {
+						return
+					}
+					if !walk(ret.Results[0], depth+1) {
+						l.callAssign[ret] = append(l.callAssign[ret], ret.Results[0])
+					}
+				})
+			}
+			return true
 		case *ssa.UnOp:
 			if x.Op == token.MUL {
 				if k, ok := c05MemKeyOf(x.X); ok && c05LocStores(x.X) != nil {
